@@ -32,7 +32,13 @@ BOOL = {"and": ast.And, "or": ast.Or}
 CMP = {"==": ast.Eq, "!=": ast.NotEq, "<": ast.Lt, "<=": ast.LtE, ">": ast.Gt, ">=": ast.GtE, "is": ast.Is,
        "is not": ast.IsNot, "in": ast.In, "not in": ast.NotIn}
 LIT = {"int": "1", "bigint": "123456789012345678901234567890", "float": "1.5", "inf": "1e999", "cplx": "2j",
-       "str": "'s'", "bytes": "b's'", "None": "None", "True": "True", "Ellipsis": "..."}
+       "str": "'s'", "bytes": "b's'", "None": "None", "True": "True", "Ellipsis": "...",
+       "hugehex": "0x" + "f" * 4000}      # > 4300 decimal digits: only a hexadecimal literal can denote it
+
+
+def huge(text: str) -> str:
+    """Expr.tla writes the huge hexadecimal literal as the token 0xHUGE."""
+    return text.replace("0xHUGE", LIT["hugehex"])
 ALL_CMP = sorted(CMP)
 FEW_CMP = ["<", "in", "is not"]
 ASTOR_CLASS = "astor-fallback-unfaithful"
@@ -142,7 +148,13 @@ def _fields_copy(node: Any) -> Any:
         return type(node)(**{f: _fields_copy(getattr(node, f, None)) for f in node._fields})
     if isinstance(node, list):
         return [_fields_copy(x) for x in node]
+    if type(node) is int and node.bit_length() > 14000:      # repr() of such an int raises (int max str digits)
+        return "<int %s>" % hex(node)
     return node
+
+
+def adump(e: Any) -> str:
+    return ast.dump(_fields_copy(e))
 
 
 def canon(e: ast.AST) -> str:
@@ -161,7 +173,11 @@ def same_expr(shown: str, tree_ast: ast.expr) -> Tuple[bool, str]:
     if got is None:
         return False, "shown text is not a Python expression"
     if canon(got) != canon(tree_ast):
-        return False, "shown text parses to a different expression: " + ast.unparse(got)
+        try:
+            other = ast.unparse(got)
+        except ValueError:
+            other = "(not printable)"
+        return False, "shown text parses to a different expression: " + other
     return True, ""
 
 
@@ -207,7 +223,7 @@ def model_text(rec: Dict[str, Any]) -> Tuple[str, bool]:
                 return "".join(out)[:-3] + "...", False
             out.append(txt)
         else:
-            out.append(tok)
+            out.append(huge(tok))
     return "".join(out), True
 
 
@@ -283,16 +299,16 @@ def judge_tree(ctx: Ctx, rec: Dict[str, Any], origin: str, stats: Dict[str, int]
     `real` = (shown, is_complete) when the text was obtained another way (annotations: through the real builder)."""
     tree = rec["t"]
     want = mk_ast(tree)
-    ref_src = "".join(rec["ref"])
+    ref_src = huge("".join(rec["ref"]))
     # (a) the reference against CPython
     got = parse_expr(ref_src)
-    if got is None or (real is None and ast.dump(got) != ast.dump(want)):
+    if got is None or (real is None and adump(got) != adump(want)):
         raise MachineryError(f"Expr.tla!Required is unsound: reference text {ref_src!r} does not parse back to {tree}")
-    nopar = "".join(rec.get("nopar") or [])
+    nopar = huge("".join(rec.get("nopar") or []))
     if nopar and nopar != ref_src:
         g2 = parse_expr(nopar)
         stats["necessity_checked"] += 1
-        if g2 is not None and ast.dump(g2) == ast.dump(want):
+        if g2 is not None and adump(g2) == adump(want):
             raise MachineryError(f"Expr.tla!Required demands parentheses that Python does not need: {ref_src!r} vs {nopar!r}")
     # (b) the real code
     shown, complete = real if real is not None else shown_inline(mk_ast(tree))[:2]
@@ -548,7 +564,7 @@ def layout_tree(e: ast.AST) -> Dict[str, Any]:
     if isinstance(e, (ast.Compare, ast.IfExp, ast.Lambda, ast.ListComp, ast.GeneratorExp)):
         # environment: the text astor gives for the sub-tree, handed to _output in one piece
         return N("Text", [{"\n": "nl", "'": "sq", "\\": "bs"}.get(c, c) for c in astor_text(e)], [])
-    raise MachineryError("layout_tree: form outside ExprLayout.tla: " + ast.dump(e))
+    raise MachineryError("layout_tree: form outside ExprLayout.tla: " + adump(e))
 
 
 def _walk(t: Dict[str, Any]):
@@ -860,7 +876,8 @@ def gen_tree(rng: random.Random, depth: int) -> Dict[str, Any]:
     N = lambda k, op, kids: {"k": k, "op": op, "kids": kids}
     if depth <= 0 or rng.random() < 0.12:
         if rng.random() < 0.3:
-            return N("Const", rng.choice(sorted(LIT)), [])
+            kd = rng.choice(sorted(LIT))
+            return N("Const", "int" if kd == "hugehex" and rng.random() < 0.85 else kd, [])   # rare: astor cannot print it
         return N("Name", rng.choice("abcdefgh"), [])
     g = lambda: gen_tree(rng, depth - 1)
     r = rng.random()
@@ -1028,7 +1045,7 @@ def run(ctx: Ctx) -> int:
     ctx.extra["random_deeper_trees"] = nfile
     # ---- annotations with a quoted part: source -> real builder (unstring_annotation) -> colorizer
     ann = tlc_cases("ann", ann_cmp, ann_ops=ann_ops)
-    shown_ann = shown_annotations(["".join(rec["ref"]) for rec in ann])
+    shown_ann = shown_annotations([huge("".join(rec["ref"])) for rec in ann])
     for rec, real in zip(ann, shown_ann):
         judge_tree(ctx, rec, "annotation", stats, real=real)
     ctx.extra["annotations_with_quoted_part"] = len(ann)
